@@ -152,3 +152,11 @@ Definition keeps_sets (g : group) : bool := match g_policy g with PFixed => fals
 Definition floor_ok (s : sstate) (cfg : config) : bool :=
   forallb (fun g => negb (keeps_sets g) || Nat.eqb (length (g_members g)) 0
                     || forallb (fun d => negb (Nat.eqb (length (members_alive s g d)) 0)) all_doms) (c_groups cfg).
+
+(* the slot of the kernel's connectivity array that carries the bit of (outbound, type): the layout the
+   kernel reads (tproxy.c wan_outbound_is_alive): outbound_id * 6 + domain * 2 + ipversion,
+   domain 0 = TCP, 1 = DNS UDP, 2 = data UDP; ipversion 0 = IPv4, 1 = IPv6 *)
+Definition spec_slot (outbound : N) (d : dom) : N :=
+  outbound * 6
+  + (match d with Tcp4 | Tcp6 => 0 | DnsUdp4 | DnsUdp6 => 1 | DataUdp4 | DataUdp6 => 2 end) * 2
+  + (match d with Tcp4 | DnsUdp4 | DataUdp4 => 0 | _ => 1 end).
